@@ -85,6 +85,8 @@ TARGETS = [
 CTX_MANAGER = 'ctx_manager'
 CTX_ACCESS = ('get', 'create')
 THROW = 'throw_error'
+# calls that create the context of the entity they are given (besides `ctx_manager->create(e)` itself)
+CREATES_CONTEXT = ('validate_encoding',)
 
 # ------------------------------------------------------------------ tokens
 
@@ -705,6 +707,8 @@ class Lower:
         self.sigs = sigs               # C++ name -> [Sig] of the functions translated so far
         self.lean_names = lean_names   # C++ names that are (or will be) translated, for the recursion test
         self.locals = {}               # name -> ('var', type) | ('alias', lowered value)
+        self.all_locals = {}
+        self.created = []
         self.role = {}                 # entity root name -> canonical role
         self.ent_struct = {}           # entity root name -> struct name | None
         self.params = []
@@ -716,13 +720,17 @@ class Lower:
             if t[0] == 'struct':
                 self.role[name] = 'p%d' % i
                 self.ent_struct[name] = t[1]
-                self.locals[name] = ('alias', ('ent', (name,), t[1]))
+                self.bind(name, ('alias', ('ent', (name,), t[1])))
                 self.params.append(('ent', name, t))
             elif t[0] == 'uint':
-                self.locals[name] = ('var', t)
+                self.bind(name, ('var', t))
                 self.params.append(('ref' if ref else 'val', name, t))
             else:
                 raise ExtractError('parameter %s: type %s is not supported' % (name, ty))
+
+    def bind(self, name, b):
+        self.locals[name] = b
+        self.all_locals[name] = b
 
     # ---- canonical (rename-insensitive) spelling of locations and oracle arguments
     def cpath(self, path):
@@ -890,8 +898,9 @@ class Lower:
                 if a[0] != 'val' or b[0] != 'val':
                     raise ExtractError('%s on untracked values' % op)
                 return ('val', ('bin', op, self.as_bool(a[1]), self.as_bool(b[1])))
-            a = self.lower(e[2])
-            b = self.lower(e[3])
+            arith = expect if op in ('+', '-', '*') and expect is not None and expect[0] == 'uint' else None
+            a = self.lower(e[2], arith)
+            b = self.lower(e[3], arith)
             if a[0] == 'opaque' and b[0] == 'val':
                 a = self.lower(e[2], self.ir_type(b[1]))
             if b[0] == 'opaque' and a[0] == 'val':
@@ -922,6 +931,8 @@ class Lower:
                 a = self.lower(e[2][0])
                 if a[0] != 'ent':
                     raise ExtractError('%s->%s of a value that is not an entity' % (CTX_MANAGER, fn[2]))
+                if fn[2] == 'create':
+                    self.created.append(a[1])
                 return ('ctxobj', a[1])
             if fn[0] == 'member' and fn[1][0] != 'this':
                 obj = self.lower(fn[1])
@@ -966,10 +977,14 @@ class Lower:
         out = []
         for s in stmts:
             try:
-                out.extend(self.stmt(s))
+                self.created = []
+                lowered = self.stmt(s)
+                out.extend(('establish', p, s[-1]) for p in self.created)
+                self.created = []
+                out.extend(lowered)
             except ExtractError as ex:
                 # a statement outside the grammar: harmless if the slice does not need it, fatal otherwise
-                out.append(('unparsed', str(ex), s[-1]))
+                out.append(('unparsed', str(ex), s[-1], ast_names(s)))
         return out
 
     def lvalue(self, e):
@@ -1002,13 +1017,13 @@ class Lower:
                     if lv[1][0] != 'loc':
                         raise ExtractError('reference to a temporary')
                     raise ExtractError('reference to a scalar location (`%s`)' % name)
-                self.locals[name] = ('alias', lv)
+                self.bind(name, ('alias', lv))
                 return []
             t = None if ty == 'auto' else self.T.of_spelling(ty)
             if init is not None and init[0] == 'brace' and not init[2]:
                 if t is None:
                     raise ExtractError('auto x{}')
-                self.locals[name] = ('var', t)
+                self.bind(name, ('var', t))
                 return [('assign', ('local', name), self.zero(t), t, line)]
             if init is None:
                 raise ExtractError('uninitialised local `%s`' % name)
@@ -1023,9 +1038,9 @@ class Lower:
                     it = t
                 if t is not None and t[0] != 'opaque' and t != it:
                     raise ExtractError('`%s`: conversion %s -> %s in a declaration' % (name, it, t))
-                self.locals[name] = ('var', it)
+                self.bind(name, ('var', it))
                 return [('assign', ('local', name), lv[1], it, line)]
-            self.locals[name] = ('alias', lv)
+            self.bind(name, ('alias', lv))
             return []
         if k == 'return':
             if s[1] is not None:
@@ -1034,10 +1049,12 @@ class Lower:
         if k == 'if':
             c = self.cond(s[1])
             saved = dict(self.locals)
+            outer_created = self.created
             th = self.block(s[2])
             self.locals = dict(saved)
             el = self.block(s[3]) if s[3] is not None else []
             self.locals = saved
+            self.created = outer_created
             return [('if', c, th, el, line)]
         if k == 'rangefor':
             _, var, rng, body, _ = s
@@ -1053,8 +1070,10 @@ class Lower:
             if t_last[0] != 'vec':
                 raise ExtractError('range of the loop is not a std::vector member')
             self.ent_struct[var] = t_last[1]
-            self.locals[var] = ('alias', ('ent', (var,), self.ent_struct[var]))
+            self.bind(var, ('alias', ('ent', (var,), self.ent_struct[var])))
+            outer_created = self.created
             b = self.block(body)
+            self.created = outer_created
             self.locals = saved
             return [('for', var, r[1], b, line)]
         if k == 'expr':
@@ -1093,16 +1112,31 @@ class Lower:
                         raise ExtractError('return inside a visited lambda')
                     saved = dict(self.locals)
                     # the lambda parameter denotes the entity held by the variant
-                    self.locals[lam[1][0]] = ('alias', tgt)
+                    self.bind(lam[1][0], ('alias', tgt))
+                    outer_created = self.created
                     b = self.block(lam[2])
+                    self.created = outer_created
                     self.locals = saved
                     return b
                 if name in self.sigs:
                     return [self.tcall(name, e[2], line)]
                 if name in self.lean_names:
-                    # recursion into another entity (nested groups): the same rules applied elsewhere
-                    return [('other', 'recursion: ' + name, line)]
-                return [('other', name or 'call', line)]
+                    # recursion into another entity (nested encodings / groups): the same rules applied elsewhere
+                    pre = []
+                    if name in CREATES_CONTEXT:
+                        for a in e[2]:
+                            lv = self.lower(a)
+                            if lv[0] == 'ent':
+                                pre.append(('establish', lv[1], line))
+                    return pre + [('other', 'recursion: ' + name, line)]
+                # another rule; remember what it is given (layout values handed on to other rules)
+                given = []
+                for a in e[2]:
+                    try:
+                        given.append(self.canon(self.lower(a)))
+                    except ExtractError:
+                        given.append('?')
+                return [('other', name or 'call', line, tuple(given))]
             return [('other', e[0], line)]
         raise ExtractError('statement %s' % k)
 
@@ -1162,6 +1196,26 @@ class Lower:
         return ('tcall', sig, binds, line)
 
 
+def ast_names(x, acc=None):
+    """every identifier in an AST fragment"""
+    if acc is None:
+        acc = set()
+    if isinstance(x, (tuple, list)):
+        if len(x) >= 2 and x[0] == 'name' and isinstance(x[1], str):
+            acc.add(x[1])
+            acc.add(x[1].split('::')[-1])
+        elif len(x) >= 3 and x[0] == 'member' and isinstance(x[2], str):
+            acc.add(x[2])
+            ast_names(x[1], acc)
+        elif len(x) >= 4 and x[0] == 'decl':
+            acc.add(x[3])
+            ast_names(x[4], acc)
+        else:
+            for y in x:
+                ast_names(y, acc)
+    return acc
+
+
 def has_return(stmts):
     for s in stmts:
         if s[0] == 'return':
@@ -1171,3 +1225,793 @@ def has_return(stmts):
         if s[0] == 'rangefor' and has_return(s[3]):
             return True
     return False
+
+
+# ------------------------------------------------------------------ slicing
+
+def ir_reads(ir, acc=None):
+    """locations read by an IR expression"""
+    if acc is None:
+        acc = set()
+    if ir is None:
+        return acc
+    k = ir[0]
+    if k == 'loc':
+        acc.add(ir[1])
+    elif k in ('bin',):
+        ir_reads(ir[2], acc)
+        ir_reads(ir[3], acc)
+    elif k == 'optcmp':
+        ir_reads(ir[2], acc)
+        ir_reads(ir[3], acc)
+    elif k == 'un':
+        ir_reads(ir[2], acc)
+    elif k in ('deref', 'has', 'some'):
+        ir_reads(ir[1], acc)
+    return acc
+
+
+def rebase(key_path, binds_ent):
+    """role path of the callee ('p0.members') -> caller entity path"""
+    parts = key_path.split('.')
+    return binds_ent[parts[0]] + tuple(parts[1:])
+
+
+class Slice:
+    """which IR statements the layout depends on (see the module docstring)"""
+
+    def __init__(self, low, ir):
+        self.low = low
+        self.ir = ir
+        self.acc = set(('local', n) for k, n, _ in low.params if k in ('val', 'ref'))
+        self.find_acc(ir)
+        self.check_unparsed(ir)
+        self.taint = set(self.acc)
+        self.rel = set()
+        self.kept = set()
+        self.other = []
+        changed = True
+        while changed:
+            n = (len(self.taint), len(self.rel), len(self.kept))
+            self.pass_(ir, False)
+            changed = n != (len(self.taint), len(self.rel), len(self.kept))
+        self.collect_other(ir)
+
+    def check_unparsed(self, stmts):
+        """a statement the lowering could not handle must not touch anything the layout is computed from"""
+        sensitive = set(n for n, b in self.low.all_locals.items()
+                        if b[0] == 'var' or (b[0] == 'alias' and b[1][0] == 'ctxobj'))
+        sensitive |= set(self.low.lean_names)
+        for s in stmts:
+            if s[0] == 'unparsed' and (s[3] & sensitive):
+                raise ExtractError('line %d: %s' % (s[2], s[1]))
+            if s[0] == 'if':
+                self.check_unparsed(s[2])
+                self.check_unparsed(s[3])
+            elif s[0] == 'for':
+                self.check_unparsed(s[3])
+
+    def find_acc(self, stmts):
+        for s in stmts:
+            if s[0] == 'tcall':
+                for b in s[2]:
+                    if b[0] == 'ref':
+                        self.acc.add(b[1])
+            elif s[0] == 'if':
+                self.find_acc(s[2])
+                self.find_acc(s[3])
+            elif s[0] == 'for':
+                self.find_acc(s[3])
+
+    def ents(self, s):
+        return dict(('p%d' % i, b[1]) for i, b in enumerate(s[2]) if b[0] == 'ent')
+
+    def tcall_io(self, s):
+        """-> (locations read, locations written) by a call of a translated function, in the caller's terms"""
+        sig, binds = s[1], s[2]
+        ents = self.ents(s)
+        reads, writes = set(), set()
+        for b in binds:
+            if b[0] == 'ref':
+                reads.add(b[1])
+                writes.add(b[1])
+            elif b[0] == 'val':
+                ir_reads(b[1], reads)
+        for key, _, _ in sig.inputs:
+            if key[0] in ('ctx', 'mem'):
+                reads.add((key[0], rebase(key[1], ents), key[2]))
+        for key, _, _, _ in sig.outputs:
+            if key[0] == 'ctx':
+                writes.add(('ctx', rebase(key[1], ents), key[2]))
+        return reads, writes
+
+    def pass_(self, stmts, under_layout_cond):
+        any_kept = False
+        for s in stmts:
+            k = s[0]
+            keep = False
+            if k == 'assign':
+                if ir_reads(s[2]) & self.taint:
+                    self.taint.add(s[1])
+                keep = s[1] in self.taint or s[1] in self.rel
+                if keep:
+                    self.rel |= ir_reads(s[2])
+            elif k == 'establish':
+                self.kept.add(id(s))
+            elif k == 'return':
+                keep = True
+            elif k == 'throw':
+                keep = under_layout_cond
+                if keep:
+                    for a in s[2]:
+                        self.rel |= ir_reads(a)
+            elif k == 'tcall':
+                reads, writes = self.tcall_io(s)
+                keep = any(b[0] in ('ref', 'val') for b in s[2]) or bool(writes)
+                if keep:
+                    self.taint |= writes
+                    self.rel |= reads
+            elif k == 'if':
+                lay = under_layout_cond or bool(ir_reads(s[1]) & self.taint)
+                a = self.pass_(s[2], lay)
+                b = self.pass_(s[3], lay)
+                keep = a or b
+                if keep:
+                    self.rel |= ir_reads(s[1])
+            elif k == 'for':
+                keep = self.pass_(s[3], under_layout_cond)
+            if keep:
+                self.kept.add(id(s))
+                any_kept = True
+        return any_kept
+
+    def collect_other(self, stmts):
+        for s in stmts:
+            if id(s) in self.kept:
+                if s[0] == 'if':
+                    self.collect_other(s[2])
+                    self.collect_other(s[3])
+                elif s[0] == 'for':
+                    self.collect_other(s[3])
+                continue
+            if s[0] == 'unparsed':
+                self.other.append('line %d: not translated (%s)' % (s[2], s[1]))
+            elif s[0] == 'other':
+                self.other.append('line %d: %s%s' % (s[2], s[1], '(%s)' % ', '.join(s[3]) if len(s) > 3 else ''))
+            elif s[0] == 'throw':
+                self.other.append('line %d: throw_error "%s"' % (s[4], s[1]))
+            elif s[0] == 'assign':
+                self.other.append('line %d: %s := ...' % (s[4], self.low.canon_ir(('loc', s[1]))))
+            elif s[0] == 'if':
+                self.other.append('line %d: if (...) other rules' % s[4])
+            elif s[0] == 'for':
+                self.other.append('line %d: loop over %s' % (s[4], '.'.join(s[2])))
+            elif s[0] == 'tcall':
+                self.other.append('line %d: %s' % (s[3], s[1].cname))
+
+
+# ------------------------------------------------------------------ rendering: kept IR -> Lean
+
+def lean_type(t):
+    if t[0] in ('uint', 'int'):
+        return 'Nat'
+    if t[0] == 'opt':
+        return 'Option Nat'
+    if t[0] == 'bool':
+        return 'Bool'
+    if t[0] == 'enum':
+        return t[1]
+    raise ExtractError('no Lean type for %s' % (t,))
+
+
+def indent(lines, n=2):
+    return [' ' * n + l for l in lines]
+
+
+def paren(lines):
+    lines = list(lines)
+    lines[0] = '(' + lines[0]
+    lines[-1] = lines[-1] + ')'
+    return lines[:1] + indent(lines[1:], 1)
+
+
+class St:
+    def __init__(self, env=None, maybe=(), written=(), known=None, listout=None, established=()):
+        self.established = set(established)   # entities whose context exists (created in this function)
+        self.env = dict(env or {})      # location -> Lean expression of its current value
+        self.maybe = set(maybe)         # written locations whose Lean value is an `Option` ("was it written?")
+        self.written = set(written)
+        self.known = dict(known or {})  # canonical spelling of an optional -> Lean variable of its engaged value
+        self.listout = listout
+
+    def copy(self):
+        return St(self.env, self.maybe, self.written, self.known, self.listout, self.established)
+
+
+class Render:
+    def __init__(self, low, sl, sig):
+        self.low = low
+        self.sl = sl
+        self.sig = sig
+        self.inputs = {}
+        self.elem_inputs = {}
+        self.loopvar = None
+        self.loop_done = False
+        self.has_loop = any(s[0] == 'for' and id(s) in sl.kept for s in sl.ir)
+        self.exits = []          # pass 1: [(written, maybe)] at the exits of the function
+        self.leaves = []         # pass 1: the same at the ends of the loop body
+        self.out_locs = None
+        self.opt_out = {}
+        self.elem_locs = None
+        self.elem_opt = {}
+        self.wraps = set()
+        self.aux = []
+        self.used = set(low.all_locals) | set(low.role)
+
+    def fresh(self, base):
+        n = base
+        i = 1
+        while n in self.used:
+            i += 1
+            n = '%s%d' % (base, i)
+        return n
+
+    # ---- names
+    def locname(self, loc):
+        if loc[0] == 'local':
+            return loc[1]
+        return '_'.join(loc[1]) + ('_ctx_' if loc[0] == 'ctx' else '_') + loc[2]
+
+    def read_loc(self, loc, st):
+        if loc in st.env:
+            if loc in st.maybe:
+                raise ExtractError('`%s` is read where it may not have been written' % self.locname(loc))
+            return st.env[loc]
+        if loc[0] == 'local':
+            raise ExtractError('`%s` is read before it is assigned (or outside the loop that carries it)' % loc[1])
+        key = (loc[0], self.low.cpath(loc[1]), loc[2])
+        t = self.low.loc_type(loc)
+        if self.loopvar is not None and loc[1][0] == self.loopvar:
+            if loc[0] == 'ctx' and loc[1] not in st.established:
+                raise ExtractError('the context of `%s` is read before anything in the loop body creates it' % '.'.join(loc[1]))
+            fname = '_'.join(loc[1][1:] + ((loc[2],) if loc[0] == 'mem' else ('context', loc[2])))
+            self.elem_inputs[key] = (fname, t)
+            return '%s.%s' % (self.loopvar, fname)
+        if self.loopvar is not None:
+            raise ExtractError('the loop body reads `%s` of the enclosing function' % self.locname(loc))
+        self.inputs[key] = (self.locname(loc), t)
+        return self.locname(loc)
+
+    def oracle(self, ir):
+        key = ('call', ir[1])
+        if ir[3][0] == 'opaque':
+            raise ExtractError('the value of `%s` is used but its type is not known' % ir[1])
+        if self.loopvar is not None and re.search(r'\b%s\b' % self.low.role[self.loopvar], ir[1]):
+            self.elem_inputs[key] = (ir[2], ir[3])
+            return '%s.%s' % (self.loopvar, ir[2])
+        if self.loopvar is not None:
+            raise ExtractError('the loop body uses `%s` of the enclosing function' % ir[1])
+        self.inputs[key] = (ir[2], ir[3])
+        return ir[2]
+
+    # ---- expressions
+    def bits(self, ir):
+        t = self.low.ir_type(ir)
+        return t[1] if t[0] == 'uint' else None
+
+    def expr(self, ir, st):
+        k = ir[0]
+        if k == 'num':
+            return str(ir[1])
+        if k == 'bool':
+            return 'true' if ir[1] else 'false'
+        if k == 'enumc':
+            return '%s.%s' % (ir[1], ir[2])
+        if k == 'loc':
+            return self.read_loc(ir[1], st)
+        if k == 'oracle':
+            return self.oracle(ir)
+        if k == 'some':
+            return 'some (%s)' % self.expr(ir[1], st)
+        if k == 'deref':
+            c = self.low.canon_ir(ir[1])
+            if c not in st.known:
+                raise ExtractError('`*%s` where the optional is not known to be engaged (undefined behaviour if it is not)' % c)
+            return st.known[c]
+        if k == 'bin' and ir[1] in ('+', '-', '*'):
+            n = self.low.ir_type(ir)[1]
+            self.wraps.add(n)
+            a, b = self.expr(ir[2], st), self.expr(ir[3], st)
+            if ir[1] == '-':
+                return 'wrap%d (%s + %d - %s)' % (n, a, 2 ** n, b)
+            return 'wrap%d (%s %s %s)' % (n, a, ir[1], b)
+        if self.low.ir_type(ir)[0] == 'bool':
+            return 'decide (%s)' % self.prop(ir, st)
+        raise ExtractError('expression %s' % k)
+
+    def prop(self, ir, st):
+        k = ir[0]
+        if k == 'bin' and ir[1] in ('&&', '||'):
+            return '(%s %s %s)' % (self.prop(ir[2], st), '∧' if ir[1] == '&&' else '∨', self.prop(ir[3], st))
+        if k == 'bin':
+            op = {'==': '=', '!=': '≠', '<': '<', '<=': '≤', '>': '>', '>=': '≥'}[ir[1]]
+            return '%s %s %s' % (self.expr(ir[2], st), op, self.expr(ir[3], st))
+        if k == 'un' and ir[1] == '!':
+            return '¬ (%s)' % self.prop(ir[2], st)
+        if k == 'optcmp':
+            op = {'==': '=', '!=': '≠', '<': '<', '<=': '≤', '>': '>', '>=': '≥'}[ir[1]]
+            left = ir[4] == 'left'
+            o, v = (ir[2], ir[3]) if left else (ir[3], ir[2])
+            c = self.low.canon_ir(o)
+            if c in st.known:
+                a, b = (st.known[c], self.expr(v, st)) if left else (self.expr(v, st), st.known[c])
+                return '%s %s %s' % (a, op, b)
+            # [optional.comp.with.t]: a disengaged optional is less than any value and equal to none
+            none = {('left', '<'): 'True', ('left', '<='): 'True', ('left', '>'): 'False', ('left', '>='): 'False',
+                    ('right', '<'): 'False', ('right', '<='): 'False', ('right', '>'): 'True', ('right', '>='): 'True',
+                    ('left', '=='): 'False', ('right', '=='): 'False', ('left', '!='): 'True', ('right', '!='): 'True'}[
+                        (ir[4], ir[1])]
+            x = self.fresh('x')
+            a, b = (x, self.expr(v, st)) if left else (self.expr(v, st), x)
+            return '(match %s with | some %s => %s %s %s | none => %s)' % (self.expr(o, st), x, a, op, b, none)
+        if k == 'has':
+            c = self.low.canon_ir(ir[1])
+            if c in st.known:
+                return 'True'
+            return '(%s).isSome = true' % self.expr(ir[1], st)
+        if self.low.ir_type(ir)[0] == 'bool':
+            return '%s = true' % self.expr(ir, st)
+        raise ExtractError('condition %s' % k)
+
+    # ---- statements (continuation-passing: what follows an `if` is rendered in both branches)
+    def block(self, stmts, st, k):
+        stmts = [s for s in stmts if id(s) in self.sl.kept]
+        return self.seq(stmts, 0, st, k)
+
+    def assign_into(self, st, loc, name, maybe=False):
+        st.env[loc] = name
+        st.written.add(loc)
+        if maybe:
+            st.maybe.add(loc)
+        else:
+            st.maybe.discard(loc)
+        c = self.low.canon_ir(('loc', loc))
+        for key in [x for x in st.known if c in x]:
+            del st.known[key]
+
+    def simple(self, stmts):
+        ks = [s for s in stmts if id(s) in self.sl.kept]
+        return all(s[0] == 'assign' for s in ks)
+
+    def seq(self, stmts, i, st, k):
+        if i == len(stmts):
+            return k(st)
+        s = stmts[i]
+
+        def rest(st2):
+            return self.seq(stmts, i + 1, st2, k)
+        kind = s[0]
+        if kind == 'establish':
+            st2 = st.copy()
+            st2.established.add(s[1])
+            return rest(st2)
+        if kind == 'assign':
+            name = self.locname(s[1])
+            rhs = self.expr(s[2], st)
+            st2 = st.copy()
+            self.assign_into(st2, s[1], name)
+            return ['let %s := %s' % (name, rhs)] + rest(st2)
+        if kind == 'return':
+            if self.loopvar is not None:
+                raise ExtractError('return inside the loop')
+            return self.final(st)
+        if kind == 'throw':
+            if any(a is None for a in s[2]):
+                raise ExtractError('throw_error "%s": an argument is not a layout value' % s[1])
+            return ['.error (%s, [%s])' % (lean_str(s[1]), ', '.join(self.expr(a, st) for a in s[2]))]
+        if kind == 'if':
+            return self.if_(s, st, rest)
+        if kind == 'tcall':
+            return self.tcall(s, st, rest)
+        if kind == 'for':
+            return self.for_(s, st, rest)
+        raise ExtractError('cannot render %s' % kind)
+
+    def if_(self, s, st, rest):
+        c = s[1]
+        neg = False
+        while c[0] == 'un' and c[1] == '!':
+            neg = not neg
+            c = c[2]
+        th, el = (s[3], s[2]) if neg else (s[2], s[3])
+        if c[0] == 'has' and self.low.canon_ir(c[1]) not in st.known:
+            o = self.expr(c[1], st)
+            v = self.fresh(re.sub(r'\W', '_', o) + '_v')
+            self.used.add(v)
+            st_some = st.copy()
+            st_some.known[self.low.canon_ir(c[1])] = v
+            out = ['match %s with' % o, '| some %s =>' % v] + indent(self.block(th, st_some, rest)) + \
+                  ['| none =>'] + indent(self.block(el, st.copy(), rest))
+            self.used.discard(v)
+            return paren(out)
+        if self.simple(s[2]) and self.simple(s[3]):
+            # both branches only assign: join the assigned values, then go on once
+            cond = self.prop(s[1], st)
+            vals = []
+            for b in (s[2], s[3]):
+                stb = st.copy()
+                for a in [x for x in b if id(x) in self.sl.kept]:
+                    v = '(%s)' % self.expr(a[2], stb)
+                    self.assign_into(stb, a[1], v)
+                vals.append(stb)
+            locs = []
+            for b in (s[2], s[3]):
+                for a in b:
+                    if id(a) in self.sl.kept and a[1] not in locs:
+                        locs.append(a[1])
+            st2 = st.copy()
+            cols = []
+            for loc in locs:
+                pair = []
+                for stb in vals:
+                    if loc not in stb.env or loc in stb.maybe:
+                        raise ExtractError('`%s` is assigned in one branch only and has no value before' % self.locname(loc))
+                    pair.append(stb.env[loc])
+                cols.append(pair)
+                self.assign_into(st2, loc, self.locname(loc))
+            names = [self.locname(l) for l in locs]
+            if len(locs) == 1:
+                return ['let %s := if %s then %s else %s' % (names[0], cond, cols[0][0], cols[0][1])] + rest(st2)
+            return ['let (%s) := if %s then (%s) else (%s)' % (
+                ', '.join(names), cond, ', '.join(c_[0] for c_ in cols), ', '.join(c_[1] for c_ in cols))] + rest(st2)
+        cond = self.prop(s[1], st)
+        return paren(['if %s then' % cond] + indent(self.block(s[2], st.copy(), rest)) +
+                     ['else'] + indent(self.block(s[3], st.copy(), rest)))
+
+    def tcall(self, s, st, rest):
+        sig, binds = s[1], s[2]
+        ents = dict(('p%d' % i, b[1]) for i, b in enumerate(binds) if b[0] == 'ent')
+        args = []
+        for key, name, t in sig.inputs:
+            if key[0] in ('mem', 'ctx'):
+                args.append(self.read_loc((key[0], rebase(key[1], ents), key[2]), st))
+            elif key[0] == 'call':
+                nk = re.sub(r'\bp(\d+)\b', lambda m: self.low.cpath(ents['p' + m.group(1)]), key[1])
+                args.append(self.oracle(('oracle', nk, name, t)))
+            else:
+                raise ExtractError('%s has a loop: it cannot be called from a translated function' % sig.cname)
+        for (kind, _, _), b in zip(sig.params, binds):
+            if kind == 'val':
+                args.append(self.expr(b[1], st))
+            elif kind == 'ref':
+                args.append(self.read_loc(b[1], st))
+        st2 = st.copy()
+        pats = []
+        for key, _, t, opt in sig.outputs:
+            if key[0] == 'ctx':
+                loc = ('ctx', rebase(key[1], ents), key[2])
+            elif key[0] == 'ref':
+                loc = binds[key[1]][1]
+            else:
+                raise ExtractError('%s returns a list' % sig.cname)
+            pats.append(self.locname(loc))
+            self.assign_into(st2, loc, self.locname(loc), maybe=opt)
+        err = self.fresh('err')
+        pat = pats[0] if len(pats) == 1 else '(%s)' % ', '.join(pats) if pats else '()'
+        wrapped = ' '.join(a if re.fullmatch(r'[\w.]+', a) else '(%s)' % a for a in args)
+        return paren(['match %s %s with' % (sig.lean, wrapped), '| .error %s => .error %s' % (err, err),
+                      '| .ok %s =>' % pat] + indent(rest(st2)))
+
+    def out_value(self, loc, st, optional):
+        if not optional:
+            return st.env[loc]
+        if loc not in st.written:
+            return 'none'
+        return st.env[loc] if loc in st.maybe else 'some %s' % st.env[loc]
+
+    def for_(self, s, st, rest):
+        if self.loop_done or self.loopvar is not None:
+            raise ExtractError('more than one loop that the layout depends on')
+        var, path, body = s[1], s[2], s[3]
+        carried = [loc for loc in st.env if loc[0] == 'local' and loc in assigned_locals(body, self.sl.kept)]
+        listname = path[-1]
+        self.inputs[('list', self.low.cpath(path))] = (listname, ('list',))
+        loopname = '%s.loop' % self.sig.lean
+        tail = self.fresh('rest')
+        outs = self.fresh('outs')
+        err = self.fresh('err')
+        self.used |= {tail, outs, err}
+        self.loopvar = var
+        stb = St(env=dict((c, self.locname(c)) for c in carried))
+
+        def k_body(stl):
+            self.leaves.append((set(stl.written), set(stl.maybe)))
+            ev = self.elem_value(var, stl)
+            cs = [stl.env[c] for c in carried]
+            names = [self.locname(c) for c in carried]
+            pat = '(%s)' % ', '.join([outs] + names) if names else outs
+            res = ', '.join(['%s :: %s' % (ev, outs)] + names)
+            return paren(['match %s %s with' % (loopname, ' '.join([tail] + cs)),
+                          '| .error %s => .error %s' % (err, err),
+                          '| .ok %s => .ok (%s)' % (pat, res)])
+        lines = self.block(body, stb, k_body)
+        self.loopvar = None
+        self.loop_done = True
+        names = [self.locname(c) for c in carried]
+        self.loop_def = (loopname, var, tail, names, lines)
+        st2 = st.copy()
+        outname = self.fresh(listname + '_stored')
+        st2.listout = outname
+        pat = '(%s)' % ', '.join([outname] + names) if names else outname
+        return paren(['match %s %s with' % (loopname, ' '.join([listname] + [st.env[c] for c in carried])),
+                      '| .error %s => .error %s' % (err, err), '| .ok %s =>' % pat] + indent(rest(st2)))
+
+    def elem_value(self, var, st):
+        if self.elem_locs is None:
+            return '()'
+        vals = [self.out_value(l, st, self.elem_opt[l]) for l in self.elem_locs]
+        vals = [v if re.fullmatch(r'[\w.]+', v) else '(%s)' % v for v in vals]
+        return vals[0] if len(vals) == 1 else '(%s)' % ', '.join(vals) if vals else '()'
+
+    def final(self, st):
+        if self.has_loop and not self.loop_done:
+            raise ExtractError('the function can return before its loop')
+        self.exits.append((set(st.written), set(st.maybe)))
+        if self.out_locs is None:
+            return ['.ok ()']
+        vals = []
+        if self.has_loop:
+            vals.append(st.listout)
+        vals += [self.out_value(l, st, self.opt_out[l]) for l in self.out_locs]
+        for kind, name, _ in self.low.params:
+            if kind == 'ref':
+                vals.append(st.env[('local', name)])
+        if not vals:
+            return ['.ok ()']
+        return ['.ok %s' % (vals[0] if len(vals) == 1 and re.fullmatch(r'[\w.]+', vals[0]) else '(%s)' % ', '.join(vals))]
+
+    def is_out(self, loc, elem):
+        if loc[0] != 'ctx' or loc not in self.sl.taint:
+            return False
+        on_elem = self.loop_var_name is not None and loc[1][0] == self.loop_var_name
+        return on_elem == elem
+
+    def run(self):
+        """two passes: the first finds out which context members are written at which exits"""
+        self.loop_var_name = next((s[1] for s in self.sl.ir if s[0] == 'for' and id(s) in self.sl.kept), None)
+        st0 = St(env=dict((('local', n), n) for k, n, _ in self.low.params if k in ('val', 'ref')))
+        self.block(self.sl.ir, st0.copy(), self.final)
+
+        def summarise(points, elem):
+            locs = sorted({l for w, _ in points for l in w if self.is_out(l, elem)},
+                          key=lambda l: (self.low.cpath(l[1]), l[2]))
+            opt = dict((l, any(l not in w or l in m for w, m in points)) for l in locs)
+            return locs, opt
+        self.out_locs, self.opt_out = summarise(self.exits, False)
+        self.elem_locs, self.elem_opt = summarise(self.leaves, True)
+        self.exits, self.leaves = [], []
+        self.used = set(self.low.all_locals) | set(self.low.role)
+        self.inputs, self.elem_inputs = {}, {}
+        self.loop_done = False
+        self.loopvar = None
+        body = self.block(self.sl.ir, st0.copy(), self.final)
+        return body
+
+
+def assigned_locals(stmts, kept):
+    out = set()
+    for s in stmts:
+        if id(s) not in kept:
+            continue
+        if s[0] == 'assign' and s[1][0] == 'local':
+            out.add(s[1])
+        elif s[0] == 'tcall':
+            for b in s[2]:
+                if b[0] == 'ref':
+                    out.add(b[1])
+        elif s[0] == 'if':
+            out |= assigned_locals(s[2], kept) | assigned_locals(s[3], kept)
+        elif s[0] == 'for':
+            out |= assigned_locals(s[3], kept)
+    return out
+
+
+def lean_str(s):
+    return '"' + s.replace('\\', '\\\\').replace('"', '\\"').replace('\n', '\\n') + '"'
+
+
+# ------------------------------------------------------------------ one function; the module
+
+def pick(fns, cname, selector):
+    c = [f for f in fns if f.name == cname]
+    if selector is not None:
+        c = [f for f in c if selector in f.text.split(')')[0].replace(' ', '')]
+    if len(c) != 1:
+        raise ExtractError('%d definitions of %s%s' % (len(c), cname, ' (%s)' % selector if selector else ''))
+    if c[0].error:
+        raise ExtractError(c[0].error)
+    return c[0]
+
+
+def translate(types, fn, lean, sigs, lean_names):
+    low = Lower(types, fn, sigs, lean_names)
+    ir = low.block(fn.body)
+    sl = Slice(low, ir)
+    sig = Sig()
+    sig.cname, sig.lean, sig.line = fn.name, lean, fn.line
+    sig.text = fn.text
+    sig.params = low.params
+    r = Render(low, sl, sig)
+    body = r.run()
+    kinds = {'call': 0, 'ctx': 1, 'list': 2, 'mem': 3}
+    ins = sorted(r.inputs.items(), key=lambda kv: (kinds[kv[0][0]], kv[0][1:]))
+    sig.inputs = [(k, n, t) for k, (n, t) in ins]
+    names = [n for _, n, _ in sig.inputs] + [n for k, n, _ in low.params if k != 'ent']
+    if len(set(names)) != len(names):
+        raise ExtractError('two inputs would get the same Lean name: %s' % names)
+    elem_lean = None
+    decls = []
+    if r.has_loop:
+        eins = sorted(r.elem_inputs.items(), key=lambda kv: (kinds[kv[0][0]], kv[0][1:]))
+        fnames = [n for _, (n, _) in eins]
+        if len(set(fnames)) != len(fnames):
+            raise ExtractError('two per-element inputs would get the same Lean name: %s' % fnames)
+        item = '%s.Item' % lean
+        decls.append('/-- what the loop of `%s` knows about one element when it reaches the layout statements:' % fn.name)
+        for k, (n, t) in eins:
+            decls.append('    `%s` = %s' % (n, k[1] if k[0] == 'call' else '%s of %s.%s' % (k[0], k[1], k[2])))
+        decls[-1] += ' -/'
+        decls.append('structure %s where' % item)
+        for k, (n, t) in eins:
+            decls.append('  %s : %s' % (n, lean_type(t)))
+        decls.append('')
+        ets = [('Option ' + lean_type(low.loc_type(l, writing=True)) if r.elem_opt[l] else
+                lean_type(low.loc_type(l, writing=True))) for l in r.elem_locs]
+        ets = [t if ' ' not in t else '(%s)' % t for t in ets]
+        elem_lean = ets[0] if len(ets) == 1 else '(%s)' % ' × '.join(ets) if ets else 'Unit'
+        loopname, var, tail, carried, lines = r.loop_def
+        rty = ' × '.join(['List %s' % elem_lean] + ['Nat'] * len(carried))
+        decls.append('/-- the loop of `%s` (hpp:%d): per element what is stored, then the carried running values -/' % (
+            fn.name, fn.line))
+        decls.append('def %s : List %s%s → Except Thrown (%s)' % (loopname, item, ' → Nat' * len(carried), rty))
+        decls.append('  | []%s => .ok (%s)' % (''.join(', ' + c for c in carried), ', '.join(['[]'] + carried)))
+        decls.append('  | %s :: %s%s =>' % (var, tail, ''.join(', ' + c for c in carried)))
+        decls += indent(lines, 4)
+        decls.append('')
+    outs = []
+    if r.has_loop:
+        outs.append((('list',), 'stored', ('list', elem_lean), False))
+    for l in r.out_locs:
+        outs.append((('ctx', low.cpath(l[1]), l[2]), r.locname(l), low.loc_type(l, writing=True), r.opt_out[l]))
+    for i, (k, n, t) in enumerate(low.params):
+        if k == 'ref':
+            outs.append((('ref', i), n, t, False))
+    sig.outputs = outs
+
+    def oty(o):
+        if o[0][0] == 'list':
+            return 'List %s' % o[2][1]
+        t = lean_type(o[2])
+        return '(Option %s)' % t if o[3] else t
+    rty = ' × '.join(oty(o) for o in outs) if outs else 'Unit'
+    ps = []
+    for k, n, t in sig.inputs:
+        ps.append('(%s : %s)' % (n, 'List %s.Item' % lean if k[0] == 'list' else lean_type(t)))
+    for k, n, t in low.params:
+        if k != 'ent':
+            ps.append('(%s : %s)' % (n, lean_type(t)))
+    text = fn.text.replace('-/', '- /')
+    doc = ['/-- sbe_schema_validator.hpp:%d  `%s`' % (fn.line, fn.name), text]
+    doc.append('inputs: ' + '; '.join('%s = %s' % (n, k[1] if k[0] in ('call', 'list') else '%s of %s.%s' % (k[0], k[1], k[2]))
+                                      for k, n, _ in sig.inputs) +
+               ('; ' if sig.inputs and any(k != 'ent' for k, _, _ in low.params) else '') +
+               ', '.join(n for k, n, _ in low.params if k != 'ent'))
+    doc.append('result: ' + ', '.join(('per element: %s' % ', '.join(r.locname(l) for l in r.elem_locs)) if o[0][0] == 'list'
+                                      else o[1] + (' (none: not stored)' if o[3] else '') for o in outs) + ' -/')
+    decls += doc
+    decls.append('def %s %s : Except Thrown (%s) :=' % (lean, ' '.join(ps), rty))
+    decls += indent(body)
+    sig.doc_lines = len(doc)
+    sig.lines = decls
+    sig.other_rules = sl.other
+    sig.wraps = r.wraps
+    sig.ir = ir
+    return sig
+
+
+PRELUDE = '''-- GENERATED by /verif/extract/validator_layout.py from %(hpp)s on every check run. Do not edit.
+-- The layout arithmetic of sbeppc's schema validator, statement by statement: `validate_element_offset`,
+-- `validate_field_offset`, `validate_block_length` and the accumulator skeletons of `validate_encoding(composite)` and
+-- `validate_members`.  Only what the layout values depend on is translated ("other rules" are listed in
+-- extract_report.json).  C++ typing assumed: offset_t = uint%(off)d, block_length_t = uint%(bl)d (read from sbepp.hpp),
+-- std::size_t = uint64: `+`/`+=` wrap (`wrapN`); `std::optional<U>` = `Option Nat`, `*o` only under `if(o)`;
+-- `throw_error(fmt, location, args...)` = `.error (leading words of fmt, [args])`; a context member that is not
+-- written on every path is returned as `Option` (none = not written).
+
+set_option linter.unusedVariables false
+
+namespace Sbepp.Extracted.ValidatorLayout
+
+/-- a `throw_error`: the leading words of its format string and its numeric arguments -/
+abbrev Thrown := String × List Nat
+'''
+
+
+def extract(repo, outdir):
+    report = {'source': HPP, 'functions': {}, 'failed': {}, 'other_rules': {}, 'continuations': {}}
+    lines = []
+    try:
+        types = Types(repo)
+        src = cxx.strip_comments(open(os.path.join(repo, HPP), encoding='utf-8').read())
+        a, b = cxx.find_class_body(src, CLASS)
+        toks = tokenize(src[a:b], src.count('\n', 0, a) + 1)
+        fns = scan_functions(toks, {t[0] for t in TARGETS})
+    except (ExtractError, OSError, ValueError) as ex:
+        for _, _, lean in TARGETS:
+            report['failed'][lean] = 'cannot read the sources: %s' % ex
+        types, fns = None, []
+    sigs = {}
+    lean_names = {t[0] for t in TARGETS}
+    wraps = set()
+    defs = []
+    for cname, selector, lean in TARGETS:
+        if types is None:
+            break
+        try:
+            fn = pick(fns, cname, selector)
+            sig = translate(types, fn, lean, sigs, lean_names)
+            if cname == 'validate_block_length':
+                check_block_length_continuation(sig, report)
+        except ExtractError as ex:
+            report['failed'][lean] = str(ex)
+            continue
+        except (KeyError, IndexError, TypeError, AttributeError) as ex:
+            report['failed'][lean] = 'internal: %r' % ex
+            continue
+        if selector is None:
+            sigs.setdefault(cname, []).append(sig)
+        wraps |= sig.wraps
+        defs.append(sig)
+        code = [l for l in sig.lines if l.startswith(('def ', 'structure ', ' '))]
+        report['functions'][lean] = {'line': sig.line, 'sha': hashlib.sha256('\n'.join(code).encode()).hexdigest()[:12],
+                                     'inputs': [n for _, n, _ in sig.inputs], 'outputs': [o[1] for o in sig.outputs]}
+        report['other_rules'][lean] = sig.other_rules
+    if types is not None:
+        lines.append(PRELUDE % {'hpp': HPP, 'off': types.bits.get('offset_t', 0), 'bl': types.bits.get('block_length_t', 0)})
+        for n in sorted(wraps):
+            lines.append('/-- conversion to a %d-bit unsigned type -/' % n)
+            lines.append('def wrap%d (n : Nat) : Nat := n %% %d' % (n, 2 ** n))
+            lines.append('')
+        code = '\n'.join(l for sg in defs for l in sg.lines if l.startswith(('def ', 'structure ', ' ')))
+        for en in sorted(types.enums):
+            if not re.search(r'\b%s\b' % en, code):
+                continue
+            lines.append('/-- `enum class %s` (sbepp.hpp) -/' % en)
+            lines.append('inductive %s where' % en)
+            for c in types.enums[en]:
+                lines.append('  | %s' % c)
+            lines.append('  deriving DecidableEq, Repr')
+            lines.append('')
+        for sg in defs:
+            lines += sg.lines
+            lines.append('')
+        lines.append('end Sbepp.Extracted.ValidatorLayout')
+    else:
+        lines.append('-- GENERATED by /verif/extract/validator_layout.py: the sources could not be read')
+    write_if_changed(os.path.join(outdir, OUT), '\n'.join(lines) + '\n')
+    return report
+
+
+def check_block_length_continuation(sig, report):
+    """`validate_block_length` ends by handing the stored value to `validate_header_value(level, "blockLength", ...)`
+    (a rule of its own, not translated): it must be the last statement and be given exactly that"""
+    ir = sig.ir
+    last = ir[-1] if ir else None
+    want = ('ent:p0', repr('blockLength'), 'ctx:p0.actual_block_length')
+    got = None
+    if last is not None and last[0] == 'other' and len(last) > 3:
+        got = (last[1],) + tuple(last[3])
+    report['continuations'][sig.lean] = list(got) if got else None
+    if got != ('validate_header_value',) + want:
+        raise ExtractError('the last statement is not validate_header_value(level, "blockLength", '
+                           'ctx_manager->get(level).actual_block_length): %s' % (got,))
